@@ -115,3 +115,43 @@ Print Assumptions C10_send_pgn_never_leaks_a_session_number.
 Theorem C10_job_pass_returns_every_removed_session : forall hh, exec flow_job22 false (Term hh) -> hh = false.
 Proof. exact job_pass22_returns_every_removed_session. Qed.
 Print Assumptions C10_job_pass_returns_every_removed_session.
+
+From J1939P Require Net21 Net21Proofs Net21Seq.
+
+(* T10.17: after a completed transfer the two nodes are as they were: the final state of the closed loop meets the premises
+   of the closed-loop theorem itself *)
+Theorem C10_completed_transfer_restores_the_pair : forall prio sa dest dp pf p t0 A0 B0,
+  0 <= prio < 8 -> 0 <= sa < 255 -> 0 <= dest < 255 -> 0 <= pf < 240 -> 0 <= dp < 2 -> 8 < len p <= 1785 -> 0 < t0 ->
+  n_snd A0 = [] /\ n_rcv A0 = [] /\ n_timers A0 = [] /\ n_cmdt_iv A0 = None /\ accepts A0 sa = true /\ 1 <= n_maxp A0 ->
+  n_snd B0 = [] /\ n_rcv B0 = [] /\ n_timers B0 = [] /\ accepts B0 dest = true /\ 1 <= n_maxp B0 ->
+  let pv := dp * 65536 + pf * 256 in
+  let num := Z.of_nat (npk (length p)) in
+  exists j, let s := Net21.steps j (Net21.net_send (Net21.net0 A0 B0 t0) dp pf dest prio sa p) in
+    (Net21.qa s = [] /\ Net21.qb s = [] /\ t0 <= Net21.clk s /\
+     Net21.evb s = deliveries B0 7 pv sa dest p /\
+     Net21.wab s = tp21_rts sa dest prio pv (len p) num (Z.min (n_maxp A0) num)
+             :: map (fun k => tp21_dt sa dest (dt_payload p (Z.of_nat k))) (seq 0 (npk (length p)))) /\
+    (n_snd (Net21.na s) = [] /\ n_rcv (Net21.na s) = [] /\ n_timers (Net21.na s) = [] /\ n_cmdt_iv (Net21.na s) = None /\
+     accepts (Net21.na s) sa = true /\ 1 <= n_maxp (Net21.na s)) /\
+    (n_snd (Net21.nb s) = [] /\ n_rcv (Net21.nb s) = [] /\ n_timers (Net21.nb s) = [] /\ accepts (Net21.nb s) dest = true /\
+     1 <= n_maxp (Net21.nb s)) /\
+    n_maxp (Net21.na s) = n_maxp A0 /\ n_subs (Net21.nb s) = n_subs B0 /\ n_cas (Net21.nb s) = n_cas B0.
+Proof. exact Net21Proofs.closed_loop_restores. Qed.
+Print Assumptions C10_completed_transfer_restores_the_pair.
+
+(* T10.18 / T01.12: a HISTORY of transfers.  Any number of J1939-21 connection-mode transfers (any payloads of 9..1785 bytes, any
+   PGNs and priorities) run one after the other between two model nodes, each submitted when the network has come to rest:
+   there is a run in which ALL of them complete — after every one the nodes meet the premises of the closed-loop theorem
+   again (nothing pending, same configuration, same subscribers), so send_pgn is accepted again and the next one
+   delivers; B's subscribers have got every payload exactly once, in order, and the wire carries exactly the frames of
+   every transfer, in order.  (seq_reach: submit, run j steps, submit the next ...) *)
+Theorem C10_sequence_of_transfers_all_deliver : forall sa dest, 0 <= sa < 255 -> 0 <= dest < 255 ->
+  forall ms s, Forall Net21Seq.msg_ok ms -> Net21.qa s = [] -> Net21.qb s = [] -> 0 < Net21.clk s ->
+  Net21Seq.premA sa (Net21.na s) -> Net21Seq.premB dest (Net21.nb s) ->
+  exists s', Net21Seq.seq_reach sa dest s ms s' /\
+    Net21.qa s' = [] /\ Net21.qb s' = [] /\ Net21Seq.premA sa (Net21.na s') /\ Net21Seq.premB dest (Net21.nb s') /\
+    Net21.evb s' = Net21.evb s ++ concat (map (fun m => deliveries (Net21.nb s) 7 (Net21Seq.m_dp m * 65536 + Net21Seq.m_pf m * 256) sa dest
+                                                                  (Net21Seq.m_data m)) ms) /\
+    Net21.wab s' = Net21.wab s ++ concat (map (Net21Seq.wire_of sa dest (n_maxp (Net21.na s))) ms).
+Proof. exact Net21Seq.sequence_delivers. Qed.
+Print Assumptions C10_sequence_of_transfers_all_deliver.
